@@ -238,6 +238,11 @@ def verify_block(ex, qualname, select, make_env, post, tag='', raises=None,
         old.env = dict(st.env)
         saved = (ex.cur_fn, ex.loop_specs, ex.loop_ord)
         ex.cur_fn = fs
+        ex.alias = ex.fe.local_aliases(fs.qualname)
+        for cur, ref in ex.alias.items():
+            # inputs of the block named by the contract under the old name
+            if ref in st.env and cur not in st.env:
+                st.env[cur] = st.env[ref]
         ex.loop_specs = loops or {}
         from .frontend import loops_of
         ex.loop_ord = {id(n): k for k, n in enumerate(loops_of(fs.node))}
